@@ -443,7 +443,9 @@ def run_property(prop, tier: str, seed: int) -> int:
 
     t0 = time.time()
     known = Known()
-    budget_s = float(os.environ.get("VERIF_BUDGET_S", "0") or 0)
+    # wall-clock budget of the pooled phases: none for quick; thorough defaults to 50 minutes (sizes are chosen so that it
+    # is normally not reached; if it is, the run is reported as partly inconclusive, never as a violation)
+    budget_s = float(os.environ.get("VERIF_BUDGET_S", "") or (3000 if tier == "thorough" else 0))
     prop.setup(tier)
     phases: List[Phase] = prop.phases(tier)
     total = Collector(prop.ID, known)
